@@ -41,11 +41,17 @@ class Race(E1Check):
         made: list[Any] = []
         two = p["types"] == 2
 
+        class Flaky(Exception):
+            pass
+
         async def afactory() -> Any:
             calls["n"] += 1
             k = calls["n"]
             env.log("factory+", k)
             await env.gate(f"fac{k}")
+            if p.get("fail_first") and k == 1:
+                env.log("factory!", k)
+                raise Flaky("first generation fails")
             v = AB() if two else A()
             made.append(v)
             env.log("factory-", k)
@@ -67,22 +73,37 @@ class Race(E1Check):
             return r
 
         got: dict[str, Any] = {}
+        got_t: dict[str, type] = {}
+        failed: dict[str, BaseException] = {}
+        events: list = []
+
+        async def listener(ctx: Any, started: anyio.Event) -> None:
+            async with ctx.resource_added.stream_events() as stream:
+                started.set()
+                async for ev in stream:
+                    events.append((tuple(t.__name__ for t in ev.resource_types), ev.resource_name, ev.is_factory))
 
         async def looker(name: str, ctx: Any, api: str, T: type, pre_gate: bool) -> None:
             async with Context(ctx) if p["own_child"] and name != "t0" else _null():
                 if pre_gate:
                     await env.gate("go" + name)
                 env.log("lookup+", name)
-                if api == "method":
-                    target = ctx if not (p["own_child"] and name != "t0") else None
-                    from asphalt.core import current_context
+                try:
+                    if api == "method":
+                        target = ctx if not (p["own_child"] and name != "t0") else None
+                        from asphalt.core import current_context
 
-                    r = await (target or current_context()).get_resource(T)
-                elif api == "shortcut":
-                    r = await get_resource(T)
-                else:
-                    r = await (inj_a() if T is A else inj_b())
+                        r = await (target or current_context()).get_resource(T)
+                    elif api == "shortcut":
+                        r = await get_resource(T)
+                    else:
+                        r = await (inj_a() if T is A else inj_b())
+                except Exception as e:  # noqa: BLE001
+                    failed[name] = e
+                    env.log("lookup!", name, type(e).__name__)
+                    return
                 got[name] = r
+                got_t[name] = T
                 env.log("lookup-", name)
 
         adder_state: dict[str, Any] = {}
@@ -100,19 +121,57 @@ class Race(E1Check):
             except Exception as e:  # noqa: BLE001 - (B, default) already taken by the generated object: legitimate
                 env.log("adder-conflict", type(e).__name__)
 
+        child_sees: dict[str, Any] = {}
         async with Context() as ctx:
             ctx.add_resource_factory(afactory if p["async"] else sfactory, types=[A, B] if two else [A])
-            async with anyio.create_task_group() as tg:
-                for i, (api, tsel, pre) in enumerate(p["tasks"]):
-                    T = B if (tsel == "B" and two) else A
-                    tg.start_soon(looker, f"t{i}", ctx, api, T, pre)
+            async with anyio.create_task_group() as ltg:
+                lstarted = anyio.Event()
+                ltg.start_soon(listener, ctx, lstarted)
+                await lstarted.wait()
+                async with anyio.create_task_group() as tg:
+                    for i, (api, tsel, pre) in enumerate(p["tasks"]):
+                        T = B if (tsel == "B" and two) else A
+                        tg.start_soon(looker, f"t{i}", ctx, api, T, pre)
+                    if p.get("adder"):
+                        tg.start_soon(adder, ctx)
+                # afterwards: every API returns the same object
+                later_a = ctx.get_resource_nowait(A) if not p["async"] else await ctx.get_resource(A)
+                later_b = (await ctx.get_resource(B)) if two else None
                 if p.get("adder"):
-                    tg.start_soon(adder, ctx)
-            # afterwards: every API returns the same object
-            later_a = ctx.get_resource_nowait(A) if not p["async"] else await ctx.get_resource(A)
-            later_b = (await ctx.get_resource(B)) if two else None
+                    # a context created afterwards inherits the static resource (and not the generated one)
+                    async with Context() as child:
+                        try:
+                            child_sees["B"] = child.get_resource_nowait(B, optional=True) if "static" in adder_state else None
+                        except Exception as e:  # noqa: BLE001 - e.g. the lookup fell through to the (async) factory
+                            child_sees["B"] = e
+                for _ in range(3):
+                    await anyio.lowlevel.checkpoint()
+                ltg.cancel_scope.cancel()
         # oracle
+        # hand-out stability: what a task was handed for a pair is what a later lookup of that pair returns
+        for name, obj in got.items():
+            if not p["own_child"] or name == "t0":
+                later = later_a if got_t[name] is A else later_b
+                if later is not obj:
+                    env.fail("stable", f"task {name} was handed one object for ({got_t[name].__name__}, default) and a later lookup of that pair returned another")
+        # the first generation is announced exactly once per context
+        gen_events = [e for e in events if not e[2]]
+        if not p["own_child"] and not p.get("adder") and got and len(gen_events) != 1:
+            env.fail("events", f"one context, one first generation, but the listener received {gen_events}")
+        if p.get("fail_first"):
+            for name, exc in failed.items():
+                if type(exc).__name__ != "Flaky":
+                    env.fail("factory", f"task {name} failed with {exc!r}, which the factory did not raise")
+            if len({id(o) for o in got.values()}) > 1:
+                env.fail("factory", f"after a failed first generation the racing lookups returned {len({id(o) for o in got.values()})} different objects")
+            if calls["n"] > 2:
+                env.fail("factory", f"factory ran {calls['n']} times (one failed generation and one successful one are enough)")
+            if len(failed) + len(got) != len(p["tasks"]):
+                env.fail("factory", f"{len(p['tasks']) - len(failed) - len(got)} racing lookup(s) neither returned nor failed")
+            return
         if p.get("adder"):
+            if "static" in adder_state and child_sees.get("B") is not adder_state["static"]:
+                env.fail("visible", "a context created after the race does not inherit the static resource that was added during the generation")
             if "static" in adder_state:
                 if adder_state.get("first_lookup") is not adder_state["static"]:
                     env.fail("stable", "a lookup right after add_resource() did not return the resource just added")
@@ -164,8 +223,28 @@ def adder_units(tier: str) -> list:
     return units
 
 
+def fail_first_units(tier: str) -> list:
+    units = []
+    for n in (2, 3):
+        for apis in (("method",) * n, ("method", "shortcut", "inject")[:n]):
+            for pre in ((False,) * n, (True,) * n, (False,) + (True,) * (n - 1)):
+                units.append({"race": {"async": True, "types": 1, "own_child": False, "fail_first": True,
+                                       "tasks": [list(t) for t in zip(apis, ("A",) * n, pre)]}})
+    return units
+
+
+def two_type_units(tier: str) -> list:
+    """racing lookups of the two types of one async factory (used by C03 for hand-out stability and C18 for events)"""
+    units = []
+    for apis in itertools.product(APIS, repeat=2):
+        for tsel in (("A", "B"), ("B", "A")):
+            for pre in ((False, False), (True, True), (False, True)):
+                units.append({"race": {"async": True, "types": 2, "own_child": False, "tasks": [list(t) for t in zip(apis, tsel, pre)]}})
+    return units
+
+
 def race_units(tier: str) -> list:
-    units = adder_units(tier)
+    units = adder_units(tier) + fail_first_units(tier)
     ntasks = (2,) if tier == "quick" else (2, 3)
     for is_async in (True, False):
         for types in (1, 2):
